@@ -610,9 +610,16 @@ def rule_range_parser(ctx, F):
             rv_ = P.strip(r[2][0], calls=False)
             if rv_[0] == "call" and rv_[1] in F.fns and not rv_[2] and m == ("field", rv_, 0):
                 e_ = P.strip(P.Prov(F.fns[rv_[1]]).local(0))
+                for _hop in range(3):
+                    # `empty()` may forward to `Default::default()` (derived or hand-written) and so on
+                    if e_[0] == "call" and e_[1] in F.fns and not e_[2]:
+                        e_ = P.strip(P.Prov(F.fns[e_[1]]).local(0))
+                    else:
+                        break
                 if e_[0] == "agg" and e_[1].startswith("adt:" + HR) and len(e_[2]) == 1:
                     mk = P.strip(e_[2][0], calls=False)
-                    if mk[0] == "call" and mk[1].startswith("std::collections::HashMap") and mk[1].rsplit("::", 1)[-1] in ("with_hasher", "new", "default", "with_capacity_and_hasher"):
+                    if mk[0] == "call" and (mk[1].startswith("std::collections::HashMap") or mk[1].startswith("<std::collections::HashMap<")) and \
+                            mk[1].rsplit("::", 1)[-1] in ("with_hasher", "new", "default", "with_capacity_and_hasher"):
                         wraps.append(r)
         if not wraps:
             problems.append("the returned range does not wrap the map that receives the inserts")
